@@ -1364,6 +1364,11 @@ class Evaluator:
                 return UNIT[attr]
             if base.name in ('numpy', 'math') and attr == 'pi':
                 return sp.pi
+            if base.name == 'string':
+                import string as _string
+                v = getattr(_string, attr, None)
+                if isinstance(v, str):
+                    return Const(v)          # string.digits, string.ascii_lowercase, ...: stdlib constants
             return ExtRef(f'{base.name}.{attr}')
         if isinstance(base, ClassRef):
             r = self.m.lookup(base.ci, attr)
